@@ -39,6 +39,16 @@ pub(crate) fn bpb_validate_ok(b: &BiosParameterBlock) -> bool {
     b.validate::<()>().is_ok()
 }
 
+/// contract stub of BootSector::deserialize (its contract - every field is the specification's layout parse of the
+/// 512 bytes read - is proved by codec_bpb_parse / codec_boot_sector_frame / _full): ANY field values may come out
+pub(crate) fn stub_boot_deserialize<R: Read>(_rdr: &mut R) -> Result<BootSector, R::Error> {
+    let mut boot = BootSector::default();
+    boot.bpb = any_bpb();
+    boot.bootjmp = kani::any();
+    boot.boot_sig = kani::any();
+    Ok(boot)
+}
+
 /// the 512-byte image of a boot sector with this BPB (built with the real serializer; used as a concrete
 /// valid volume prefix by mount harnesses)
 pub(crate) fn boot_image(bpb: BiosParameterBlock) -> [u8; 512] {
